@@ -210,6 +210,18 @@ def make_fn(name: str, spec: Dict[str, Any] | None) -> Named:
             return dec(spec.get("v"))
         if kind == "prim":
             return PRIMS[spec["p"]](*a)
+        if spec.get("mutates") == "first":
+            # a body that edits ONE of its arguments in place and then looks at the others: each argument is a value
+            # of its own, so the others are as they were passed (the result records the first as it arrived)
+            vals = list(a) + [k[x] for x in k]
+            if not vals:
+                return App(name, a, k)
+            snap = copy.deepcopy(vals[0])
+            _scribble_in_place(vals[0])
+            if a:
+                return App(name, copy.deepcopy((snap,) + tuple(a[1:])), copy.deepcopy(k))
+            first = next(iter(k))
+            return App(name, (), copy.deepcopy(dict(k, **{first: snap})))
         if spec.get("mutates"):
             # a body that edits what it was given, in place and at every depth (sort / pop / setdefault in real code)
             res = App(name, copy.deepcopy(a), copy.deepcopy(k))
